@@ -127,13 +127,13 @@ func TestFullStateExchange(t *testing.T) {
 			sub.Inconclusive(err.Error())
 			return
 		}
-		defer a.peer.Leave(100 * time.Millisecond)
+		defer func() { a.peer.Leave(100 * time.Millisecond); a.peer.VerifCloseTransport() }()
 		b, err := startXPeer(fmt.Sprintf("yb%d", i), "")
 		if err != nil {
 			sub.Inconclusive(err.Error())
 			return
 		}
-		defer b.peer.Leave(100 * time.Millisecond)
+		defer func() { b.peer.Leave(100 * time.Millisecond); b.peer.VerifCloseTransport() }()
 		base := time.Now()
 		var steps []string
 		note := func(f string, args ...any) { steps = append(steps, fmt.Sprintf(f, args...)) }
